@@ -49,49 +49,85 @@ pub proof fn lemma_rlp_str_len_le(b: Seq<u8>)
     lemma_rlp_str_len(b);
     lemma_hdr_len_bound(false, b.len());
 }
+pub proof fn lemma_concat_all_2(x: Seq<u8>, y: Seq<u8>)
+    ensures concat_all(seq![x, y]) == x + y,
+{
+    reveal_with_fuel(concat_all, 3);
+    assert(seq![x, y].drop_last() =~= seq![x]);
+    assert(seq![x].drop_last() =~= Seq::<Seq<u8>>::empty());
+    assert(Seq::<u8>::empty() + x =~= x);
+}
+pub proof fn lemma_concat_all_3(x: Seq<u8>, y: Seq<u8>, z: Seq<u8>)
+    ensures concat_all(seq![x, y, z]) == x + (y + z),
+{
+    reveal_with_fuel(concat_all, 2);
+    assert(seq![x, y, z].drop_last() =~= seq![x, y]);
+    lemma_concat_all_2(x, y);
+    assert((x + y) + z =~= x + (y + z));
+}
+/// a list header in front of a concatenation of string items
+#[verifier::spinoff_prover]
+pub proof fn lemma_str_list_of_payload(p: Seq<u8>, items: Seq<Seq<u8>>)
+    requires p.len() < 0x1_0000_0000, str_items(p) == Some(items),
+    ensures str_list(hdr(true, p.len()) + p) == Some(items),
+{
+    hide(str_items);
+    lemma_parse_hdr_list(p, Seq::empty());
+    assert(hdr(true, p.len()) + p + Seq::<u8>::empty() =~= hdr(true, p.len()) + p);
+}
+#[verifier::spinoff_prover]
+pub proof fn lemma_str_items_2(a: Seq<u8>, b: Seq<u8>)
+    requires a.len() < 0x1000_0000, b.len() < 0x1000_0000,
+    ensures str_items(rlp_str(a) + rlp_str(b)) == Some(seq![a, b]),
+{
+    hide(rlp_str);
+    hide(parse_hdr);
+    assert(str_items(Seq::<u8>::empty()) == Some(Seq::<Seq<u8>>::empty()));
+    lemma_str_items_cons(b, Seq::empty());
+    assert(rlp_str(b) + Seq::<u8>::empty() =~= rlp_str(b));
+    assert(seq![b] + Seq::<Seq<u8>>::empty() =~= seq![b]);
+    lemma_str_items_cons(a, rlp_str(b));
+    assert(seq![a] + seq![b] =~= seq![a, b]);
+}
+#[verifier::spinoff_prover]
+pub proof fn lemma_str_items_3(a: Seq<u8>, b: Seq<u8>, c: Seq<u8>)
+    requires a.len() < 0x1000_0000, b.len() < 0x1000_0000, c.len() < 0x1000_0000,
+    ensures str_items(rlp_str(a) + (rlp_str(b) + rlp_str(c))) == Some(seq![a, b, c]),
+{
+    hide(rlp_str);
+    hide(parse_hdr);
+    lemma_str_items_2(b, c);
+    lemma_str_items_cons(a, rlp_str(b) + rlp_str(c));
+    assert(seq![a] + seq![b, c] =~= seq![a, b, c]);
+}
 /// the list of two / three strings reads back as those strings
+#[verifier::spinoff_prover]
 pub proof fn lemma_str_list_2(a: Seq<u8>, b: Seq<u8>)
     requires a.len() < 0x1000_0000, b.len() < 0x1000_0000,
     ensures str_list(rlp_list(seq![rlp_str(a), rlp_str(b)])) == Some(seq![a, b]),
 {
-    let items = seq![rlp_str(a), rlp_str(b)];
+    hide(rlp_str);
+    hide(parse_hdr);
+    hide(str_items);
+    hide(str_list);
+    hide(hdr);
     lemma_rlp_str_len_le(a); lemma_rlp_str_len_le(b);
-    assert(concat_all(items) =~= rlp_str(a) + rlp_str(b)) by {
-        reveal_with_fuel(concat_all, 3);
-        assert(items.drop_last() =~= seq![rlp_str(a)]);
-        assert(seq![rlp_str(a)].drop_last() =~= Seq::<Seq<u8>>::empty());
-    }
-    let p = rlp_str(a) + rlp_str(b);
-    lemma_parse_hdr_list(p, Seq::empty());
-    assert(hdr(true, p.len()) + p + Seq::<u8>::empty() =~= rlp_list(items));
-    assert(str_items(p) == Some(seq![a, b])) by {
-        lemma_str_items_cons(b, Seq::empty());
-        assert(rlp_str(b) + Seq::<u8>::empty() =~= rlp_str(b));
-        lemma_str_items_cons(a, rlp_str(b));
-        assert(seq![a] + (seq![b] + Seq::<Seq<u8>>::empty()) =~= seq![a, b]);
-    }
+    lemma_concat_all_2(rlp_str(a), rlp_str(b));
+    lemma_str_items_2(a, b);
+    lemma_str_list_of_payload(rlp_str(a) + rlp_str(b), seq![a, b]);
 }
+#[verifier::spinoff_prover]
 pub proof fn lemma_str_list_3(a: Seq<u8>, b: Seq<u8>, c: Seq<u8>)
     requires a.len() < 0x1000_0000, b.len() < 0x1000_0000, c.len() < 0x1000_0000,
     ensures str_list(rlp_list(seq![rlp_str(a), rlp_str(b), rlp_str(c)])) == Some(seq![a, b, c]),
 {
-    let items = seq![rlp_str(a), rlp_str(b), rlp_str(c)];
+    hide(rlp_str);
+    hide(parse_hdr);
+    hide(str_items);
+    hide(str_list);
+    hide(hdr);
     lemma_rlp_str_len_le(a); lemma_rlp_str_len_le(b); lemma_rlp_str_len_le(c);
-    assert(concat_all(items) =~= rlp_str(a) + (rlp_str(b) + rlp_str(c))) by {
-        reveal_with_fuel(concat_all, 4);
-        assert(items.drop_last() =~= seq![rlp_str(a), rlp_str(b)]);
-        assert(seq![rlp_str(a), rlp_str(b)].drop_last() =~= seq![rlp_str(a)]);
-        assert(seq![rlp_str(a)].drop_last() =~= Seq::<Seq<u8>>::empty());
-    }
-    let p = rlp_str(a) + (rlp_str(b) + rlp_str(c));
-    lemma_parse_hdr_list(p, Seq::empty());
-    assert(hdr(true, p.len()) + p + Seq::<u8>::empty() =~= rlp_list(items));
-    assert(str_items(p) == Some(seq![a, b, c])) by {
-        lemma_str_items_cons(c, Seq::empty());
-        assert(rlp_str(c) + Seq::<u8>::empty() =~= rlp_str(c));
-        lemma_str_items_cons(b, rlp_str(c));
-        lemma_str_items_cons(a, rlp_str(b) + rlp_str(c));
-        assert(seq![b] + (seq![c] + Seq::<Seq<u8>>::empty()) =~= seq![b, c]);
-        assert(seq![a] + seq![b, c] =~= seq![a, b, c]);
-    }
+    lemma_concat_all_3(rlp_str(a), rlp_str(b), rlp_str(c));
+    lemma_str_items_3(a, b, c);
+    lemma_str_list_of_payload(rlp_str(a) + (rlp_str(b) + rlp_str(c)), seq![a, b, c]);
 }
